@@ -421,7 +421,9 @@ func c09Blob(r *mc.Run, w *enga.World, path []enga.ABlock) {
 		used, excess uint64
 	}
 	for _, v := range []bv{{"used-1", 1, 0}, {"used-131072", 131072, 0}, {"used-131072-excess-131072", 131072, 131072},
-		{"used-max", ^uint64(0), 0}, {"used+excess-wrap-to-0", ^uint64(0) - 131071, 131072}, {"used-2^63-excess-2^63", 1 << 63, 1 << 63}, {"used-max-excess-1", ^uint64(0), 1}} {
+		{"used-max", ^uint64(0), 0}, {"used+excess-wrap-to-0", ^uint64(0) - 131071, 131072}, {"used-2^63-excess-2^63", 1 << 63, 1 << 63}, {"used-max-excess-1", ^uint64(0), 1},
+		// no blob gas used, only an excess carried over: a perfectly legal child of the head
+		{"excess-only-131072", 0, 131072}, {"excess-only-2^63", 0, 1 << 63}} {
 		x, err := w.Fork()
 		must(err)
 		viol := func(cls, msg string) {
@@ -438,6 +440,28 @@ func c09Blob(r *mc.Run, w *enga.World, path []enga.ABlock) {
 			r.Outcome("blob-payload-passes-proposal-check")
 		} else {
 			r.Outcome("blob-payload-rejected-as-proposal")
+		}
+		if v.used == 0 {
+			// legal: it must be treated like any honest child - accepted, applied, and the engine is
+			// shown the payload it will be told to make its head (what it is shown hashes to that head)
+			okP := perr == nil && pr.Status == abci.ResponseProcessProposal_ACCEPT
+			fr, ferr := x.N.Finalize(blk, [][]byte{tx})
+			switch {
+			case !okP:
+				viol("legal-child-with-excess-blob-gas-rejected", "ProcessProposal: "+x.N.LoggedErrors())
+			case ferr != nil:
+				viol("legal-child-with-excess-blob-gas-aborts-block", ferr.Error())
+			case fr.TxResults[0].Code != 0:
+				viol("legal-child-with-excess-blob-gas-not-applied", fr.TxResults[0].Log)
+			default:
+				must(x.N.Commit(blk, [][]byte{tx}, fr))
+				if post := x.Head(); post.Block.ExcessBlobGas != v.excess {
+					viol("recorded-head-differs-from-the-payload", fmt.Sprintf("excess blob gas %d recorded, %d proposed", post.Block.ExcessBlobGas, v.excess))
+				}
+				r.Outcome("legal-excess-blob-gas-child-applied")
+			}
+			x.Close()
+			continue
 		}
 		fr, ferr := x.N.Finalize(blk, [][]byte{tx})
 		if ferr == nil {
@@ -466,7 +490,7 @@ func runC09(r *mc.Run) {
 	}
 	r.Bounds["depth_blocks"] = depth
 	r.Bounds["fault_enumeration_history_depth"] = faultDepth
-	r.Rule = "tree search over block histories of the real application (real PrepareProposal/ProcessProposal/FinalizeBlock/Commit, fake execution layer over IPC) with the head monitor on every finalised block; at every node up to the fault depth, for every menu block, every placement of one engine fault (error, INVALID, SYNCING, ACCEPTED, missing payload id, stall past the 1.2 s deadline) on each of the 5 engine calls; at every node one level deeper, stale proposals put to the same application instance that verified them (the committed payload again; a sibling accepted in another round but not decided, verified before / after the decided one): rejected, message fails when finalised anyway, head and beacon root unmoved; and 7 payloads that differ from a perfect child only in their blob-gas fields (incl. pairs whose 64-bit sum wraps to zero): message fails, head unmoved; aborted blocks are retried (after a restart when FinalizeBlock failed) and compared with a fault-free replica"
+	r.Rule = "tree search over block histories of the real application (real PrepareProposal/ProcessProposal/FinalizeBlock/Commit, fake execution layer over IPC) with the head monitor on every finalised block; at every node up to the fault depth, for every menu block, every placement of one engine fault (error, INVALID, SYNCING, ACCEPTED, missing payload id, stall past the 1.2 s deadline) on each of the 5 engine calls; at every node one level deeper, stale proposals put to the same application instance that verified them (the committed payload again; a sibling accepted in another round but not decided, verified before / after the decided one): rejected, message fails when finalised anyway, head and beacon root unmoved; and 9 payloads that differ from a perfect child only in their blob-gas fields (incl. pairs whose 64-bit sum wraps to zero): with blob gas used the message fails and the head stays, with an excess only the block is applied like any honest child (the engine, which recomputes the hash from what it is shown, must agree); aborted blocks are retried (after a restart when FinalizeBlock failed) and compared with a fault-free replica"
 	r.Assumptions = []string{"single validator = proposer of every block", "ELSim defines the well-behaved engine", "pairs of faults are explored from the initial state in the thorough tier only"}
 	var explore func(r *mc.Run, only []enga.ABlock)
 	explore = func(r *mc.Run, only []enga.ABlock) {
